@@ -18,7 +18,7 @@ REQUIRED = [
     norms_closed_form shapes hann_sum blackman_sum hamming_sum hamming_sum_bound bartlett_sum bartlett_sum_bound
     window_sum_bound
     gamma_sample_kernel gamma_density_form gamma_window_mode gamma_samples_le_mode gamma_window_unimodal
-    circshift_spec circshift_default_size circshift_copy_pure circshift_inplace circshift_raises_iff
+    circshift_spec circshift_spec_fullband circshift_default_size circshift_copy_pure circshift_inplace circshift_raises_iff
     circshift_plan_bounds circshift_out_len circshift_model_phase
     gauss_quant_closed_form gauss_quant_affine gauss_quant_rational_strictMono gauss_quant_mono
     gauss_quant_strictMono gauss_quant_antisymm
@@ -378,8 +378,6 @@ def run(ctx, driver):
             ctx.case(case, nontrivial=width > 0, kind="win_" + kind)
             ctx.count("width_0" if width == 0 else "width_1_2" if width <= 2 else "width_3_64" if width <= 64
                       else "width_65_1024" if width <= 1024 else "width_1025_4096")
-            if 1 <= width <= (3 if kind == "blackman" else 2):
-                ctx.gap_cases += 0  # covered by window_sum_bound (all widths >= 1); exact-sum theorems start later
             report(ctx, case, oracle_np_window(kind, width, w))
             if isinstance(w, np.ndarray) and w.ndim == 1:
                 sel, idx = pick_sel(r, width, full_upto)
